@@ -4,6 +4,7 @@ relic_bn_lcm.c, relic_bn_inv.c and are executed by the driver against the librar
 return the mathematically defined values for ALL integers.
 -/
 import RelicVerif.Lemmas.NtGcdC
+import RelicVerif.Lemmas.NtLehmer
 
 namespace Relic.Props.C09
 open Relic.Model.NtGcd Relic.Lemmas.NtGcd
@@ -57,11 +58,40 @@ of the corresponding input -/
 theorem mod_inv_sim_exact (as : List Int) (b : Int) (hb : 1 < b) (l : List Int) (h : modInvSim as b = some l) :
     List.Forall₂ (fun x y => (x * y) % b = 1 ∧ 0 ≤ y ∧ y < b) as l := modInvSim_spec as b hb l h
 
+/-
+Lehmer's gcd (bn_gcd_lehme, bn_gcd_ext_lehme; Model/NtLehmer.lean, W = digit width).  Full statements:
+  ∀ a b, gcdLehme W a b = some (gcd(a, b))   and   ∀ a b, ∃ d e, gcdExtLehme W a b = some (gcd(a, b), d, e) ∧ a·d + b·e = gcd(a, b).
+Proved below without the existence part ("whenever the model returns").  The model returns `none` when a simulated cofactor
+leaves the dis_t range, when a combined value becomes negative, or when the outer loop's fuel runs out; that none of these happens
+(Lehmer's quotient-agreement analysis) is observed on every presented line — the driver then prints `model-overflow-or-fuel`,
+which no library output equals — not proved.  What IS proved: the simulated 2×2 matrix is unimodular after every step, applying it
+keeps the gcd, the extended variant's single tracked cofactor satisfies x ≡ t4·Y₀ (mod X₀) and the final exact division
+recovers the other one.
+-/
+/-- bn_gcd_lehme: whenever the model returns, the result is gcd(a, b), for all integers and every digit width -/
+theorem gcd_lehme_exact_partial (W : Nat) (a b c : Int) (h : Relic.Model.NtLehmer.gcdLehme W a b = some c) :
+    c = (Int.gcd a b : Int) := Relic.Lemmas.NtLehmer.gcdLehme_spec W a b c h
+
+/-- bn_gcd_ext_lehme: whenever the model returns, c = gcd(a, b) and a·d + b·e = c, for all integers and every digit width -/
+theorem gcd_ext_lehme_exact_partial (W : Nat) (a b c d e : Int) (h : Relic.Model.NtLehmer.gcdExtLehme W a b = some (c, d, e)) :
+    c = (Int.gcd a b : Int) ∧ a * d + b * e = c := Relic.Lemmas.NtLehmer.gcdExtLehme_spec W a b c d e h
+
+/-- the cofactor matrix simulated on single digits is unimodular (det = ±1) after any number of steps, and a unimodular
+combination of (x, y) has the same gcd -/
+theorem lehmer_matrix_keeps_gcd (m : Relic.Model.NtLehmer.Mat) (hm : Relic.Lemmas.NtLehmer.Unimod m) (x y : Int) :
+    Int.gcd (x * m.a + y * m.b) (x * m.c + y * m.d) = Int.gcd x y := Relic.Lemmas.NtLehmer.gcd_unimod m hm x y
+
+theorem lehmer_simulation_unimodular (W xd yd : Nat) (m m' : Relic.Model.NtLehmer.Mat)
+    (h : Relic.Model.NtLehmer.simPass W xd yd m = some m') (hm : Relic.Lemmas.NtLehmer.Unimod m) :
+    Relic.Lemmas.NtLehmer.Unimod m' := Relic.Lemmas.NtLehmer.simPass_unimod W xd yd m m' h hm
+
 /-- non-vacuity: the models run (exact cofactors as the library prints them) -/
 example : gcdExtBasic (-12) 18 = (6, 1, 1) := by decide
 example : gcdExtBinar 12 (-18) = some (6, -1, -1) := by decide
 example : gcdBinar 48 (-36) = 12 := by decide
 example : modInv 3 7 = some 5 := by decide
+example : (Relic.Model.NtLehmer.gcdExtLehme 8 0x1234567 (-0xfedcb)).isSome = true := by decide +kernel
+example : (Relic.Model.NtLehmer.gcdLehme 8 0x1234567 0xfedcb).isSome = true := by decide +kernel
 example : modInvSim [3, 5, 6] 7 = some [5, 3, 6] := by decide
 
 end Relic.Props.C09
